@@ -180,6 +180,4 @@ Definition supply_listing (b : bank) : list go_coin :=
    On error the Go function returns (nil, nil, err). *)
 Definition bank_GetPaginatedTotalSupply (w : eworld) (pg : go_PageRequest) : outcome (list go_coin * go_PageResponse) :=
   pg (supply_listing (ew_bank w)).
-(* gRPC status codes used as error classes by the query server *)
-Definition grpc_codes_InvalidArgument : Z := 3.
-Definition grpc_codes_Internal : Z := 13.
+(* gRPC status codes: lib/GoSdk.v *)
